@@ -53,6 +53,11 @@ META = {
         'permission semantics).',
         'Pickling an object and unpickling it after the row was changed by another session is outside C31.',
         'Decimal values are generated with the declared scale, datetimes without microseconds (C07 owns conversions).',
+        'The diagram has no entity inheritance: to_dict() of a pk-only seed of a polymorphic entity inherits the C27 seed '
+        'finding (attribute list of the declared class) and is left to C27.',
+        'pickle.dumps of a created / modified object is expected to raise OrmError; a silent success is only counted '
+        '(bracket.pending_object_pickled_silently).  RecursionError from pickle.dumps is reported as F_PICKLE_CYCLE only '
+        'when the loaded values reachable from the pickled objects really contain a cycle of to-one references.',
     ],
     'shims': [],
     'exhaustive_tiers': [],
